@@ -314,4 +314,40 @@ def h264DecodeAll (d : H264Dec) : List Pkt → H264Dec × DecRes (List NALU)
     | (d', .more) => h264DecodeAll d' rest
     | (d', r) => (d', r)
 
+/-! ### finding F-C23-av1: length-level model of `rtpav1.Encoder.Encode`, only to DECIDE the class
+
+The AV1 packetiser itself is not modelled (contract only).  This simulation follows its space accounting
+(`avail`, `needed`, `omitSize`, fragment lengths) and reports whether it ever closes a packet with the
+"continues in the next packet" flag although NO byte of the pending OBU was placed in it (`avail = 0`, or
+`avail ≤ LEB128 size of max` for a length-prefixed element): the next packet then starts with `Z = 1` and the
+depacketiser glues the new OBU to the previous one. -/
+
+def lebSize (n : Nat) : Nat := if n < 128 then 1 else if n < 16384 then 2 else if n < 2097152 then 3 else 4
+
+/-- `cur` = bytes in the current packet, `inPkt` = `obusInPacket`, `rem` = bytes of the current OBU still to
+place, `isLast` = it is the last OBU of the unit.  Returns true iff the no-room case is hit. -/
+def av1NoRoomObu (max : Nat) : Nat → Nat → Nat → Nat → Bool → (Bool × Nat × Nat)
+  | 0, cur, inPkt, _, _ => (false, cur, inPkt)
+  | fuel + 1, cur, inPkt, rem, isLast =>
+    let avail := max - cur
+    let om := isLast && inPkt < 3
+    let needed := if om then rem else rem + lebSize rem
+    if needed ≤ avail then (false, cur + needed, if om then inPkt else inPkt + 1)
+    else if om then
+      if avail > 0 then av1NoRoomObu max fuel 1 0 (rem - avail) isLast
+      else (true, 1, 0)
+    else
+      if avail > lebSize max then av1NoRoomObu max fuel 1 0 (rem - (avail - lebSize max)) isLast
+      else (true, 1, 0)
+
+def av1NoRoomAux (max : Nat) : Nat → Nat → List Nat → Bool
+  | _, _, [] => false
+  | cur, inPkt, [l] => (av1NoRoomObu max (l + 8) cur inPkt l true).1
+  | cur, inPkt, l :: rest =>
+    let r := av1NoRoomObu max (l + 8) cur inPkt l false
+    r.1 || av1NoRoomAux max r.2.1 r.2.2 rest
+
+/-- decidable class of F-C23-av1 -/
+def av1NoRoom (max : Nat) (obus : List Bytes) : Bool := av1NoRoomAux max 1 0 (obus.map (·.length))
+
 end MtxVerif.C23
